@@ -128,10 +128,10 @@ Definition decode_ref (name : str) : option N :=
   | [103;116] => Some c_gt
   | [113;117;111;116] => Some c_quot
   | [97;112;111;115] => Some c_apos
-  | 35 :: 120 :: (_ :: _) as ds => match num_val 16 0 ds with
+  | 35 :: 120 :: ((_ :: _) as ds) => match num_val 16 0 ds with
                                   | Some v => if is_xml_char v then Some v else None
                                   | None => None end
-  | 35 :: (_ :: _) as ds => match num_val 10 0 ds with
+  | 35 :: ((_ :: _) as ds) => match num_val 10 0 ds with
                            | Some v => if is_xml_char v then Some v else None
                            | None => None end
   | _ => None
@@ -233,7 +233,8 @@ Fixpoint build (toks : xdoc) (stack : list rframe) (roots : list rnode) : option
       match raw with
       | [] => build r stack roots
       | _ => match stack with
-             | [] => None                       (* character data outside the document element *)
+             | [] => if forallb xml_ws raw then build r stack roots   (* S is allowed around the document element *)
+                     else None                  (* character data outside the document element *)
              | _ => let (st, ro) := add_kid (RText raw) stack roots in build r st ro
              end
       end
@@ -258,12 +259,12 @@ Fixpoint env_get (e : env) (p : option str) : option str :=
 Definition lookup_prefix (e : env) (p : str) : option str :=
   if str_eqb p s_xml then Some ns_xml
   else match env_get e (Some p) with
-       | Some (_ :: _ as u) => Some u
+       | Some ((_ :: _) as u) => Some u
        | _ => None
        end.
 Definition default_ns (e : env) : option str :=
   match env_get e None with
-  | Some (_ :: _ as u) => Some u
+  | Some ((_ :: _) as u) => Some u
   | _ => None
   end.
 
@@ -428,7 +429,7 @@ Definition atoms_trivial (l : list atom) : bool :=
 Definition attr_atoms (q : qname) (l : list atom) : list atom :=
   if qname_eqb q q_xsi_type then
     match l with
-    | [AText (123 :: _ as s)] => [AQName (clark_split s)]
+    | [AText ((123 :: _) as s)] => [AQName (clark_split s)]
     | _ => l
     end
   else l.
@@ -509,6 +510,23 @@ Fixpoint etree_go (evs : list wevent) (stack : list eframe) (root : option enode
   end.
 
 Definition itree_of_events (evs : list wevent) : option enode := etree_go evs [] None.
+
+(* SerializerConfig.schema_location / no_namespace_schema_location: attributes of the
+   document element (an attribute event of the same name replaces the value) *)
+Definition q_xsi_schema_location : qname :=
+  (Some ns_xsi, [115;99;104;101;109;97;76;111;99;97;116;105;111;110]).
+Definition q_xsi_no_ns_schema_location : qname :=
+  (Some ns_xsi, [110;111;78;97;109;101;115;112;97;99;101;83;99;104;101;109;97;76;111;99;97;116;105;111;110]).
+Definition root_extra (schema_location no_ns_schema_location : option str) : list (qname * list atom) :=
+  (match schema_location with Some v => [(q_xsi_schema_location, [AText v])] | None => [] end)
+  ++ (match no_ns_schema_location with Some v => [(q_xsi_no_ns_schema_location, [AText v])] | None => [] end).
+Definition add_root_attrs (extra : list (qname * list atom)) (e : enode) : enode :=
+  match e with
+  | EElem q ats ks => EElem q (fold_left (fun acc a => set_attr (fst a) (snd a) acc) ats extra) ks
+  | EData _ => e
+  end.
+Definition expected_tree (schema_location no_ns_schema_location : option str) (evs : list wevent) : option enode :=
+  option_map (add_root_attrs (root_extra schema_location no_ns_schema_location)) (itree_of_events evs).
 
 (* ------------------------------------------------------------------ says *)
 Definition split_colon (s : str) : option str * str :=
